@@ -48,3 +48,42 @@ def old_region_unchanged_all(o: H, h: H):
         out.append(('pure.' + n, FA([x], z3.Implies(z3.And(x >= 0, x < o.alloc), z3.Select(h.arr[n], x) == z3.Select(o.arr[n], x)),
                                     [z3.Select(h.arr[n], x)])))
     return out
+
+
+# ---------------------------------------------------------------------------------------------------
+# language-graph objects (C15, used by C01)
+LGA = 'LanguageGraphAsset'
+ANC = z3.Function('ANC', Addr, Addr, z3.BoolSort())        # spec relation: reflexive-transitive closure of `extends`
+ldepth = z3.Function('ldepth', Addr, z3.IntSort())        # ghost: height of an asset in the inheritance forest
+
+
+def install_lg_objects(reg: Registry):
+    reg.schema.add_class(LGA, {'name': T.str, 'super_assets': List(Obj(LGA)), 'sub_assets': List(Obj(LGA)),
+                               'is_abstract': T('bool', opt=True)})
+    reg.classes[LGA] = ClassInfo(LGA, 'maltoolbox.language.languagegraph', False)
+
+
+def sup(h: H, x, s):
+    return h.cnt(h.f('super_assets', x), s) > 0
+
+
+def anc_axioms(h: H):
+    """definition of ANC as the least reflexive relation closed under `extends` (T6): closure rules + case unfolding"""
+    x, y, z = A('x!an'), A('y!an'), A('z!an')
+    return [
+        FA([x], ANC(x, x), [ANC(x, x)]),
+        FA([x, y, z], z3.Implies(z3.And(ANC(x, y), sup(h, y, z)), ANC(x, z)), [(ANC(x, y), h.cnt(h.f('super_assets', y), z))]),
+        FA([x, y, z], z3.Implies(z3.And(sup(h, x, y), ANC(y, z)), ANC(x, z)), [(h.cnt(h.f('super_assets', x), y), ANC(y, z))]),
+        # unfolding (valid for the least fixed point): an ancestor is the node itself or an ancestor of one of its parents
+        FA([x, z], z3.Implies(z3.And(ANC(x, z), x != z), z3.Exists([y], z3.And(sup(h, x, y), ANC(y, z)))), [ANC(x, z)]),
+    ]
+
+
+def wf_inheritance(h: H):
+    """wf_lang on language-graph objects: single inheritance, acyclic (ghost height ldepth)"""
+    x, s = A('x!wi'), A('s!wi')
+    v = z3.Const('v!wi', Val)
+    return z3.And(
+        FA([x, s], z3.Implies(sup(h, x, s), z3.And(ldepth(s) >= 0, ldepth(s) < ldepth(x))), [h.cnt(h.f('super_assets', x), s)]),
+        FA([x], z3.And(h.len(h.f('super_assets', x)) <= 1, ldepth(x) >= 0), [h.f('super_assets', x)]),
+        FA([x, v], z3.Implies(h.bag(h.f('super_assets', x), v) > 0, is_VRef(v)), [h.bag(h.f('super_assets', x), v)]))
